@@ -537,6 +537,21 @@ def _meet(ords):
     return "sc" if sc else "acqrel" if acq and rel else "acq" if acq else "rel" if rel else "rlx"
 
 
+def _enclosing_fn(rel, line):
+    """name of the fn of the crate source file that contains the line (the code under test is read, not executed)"""
+    import os, re
+    repo = os.environ.get("VERIF_REPO", "/repo")
+    try:
+        src = open(os.path.join(repo, rel)).read().splitlines()
+    except OSError:
+        return "?"
+    for i in range(min(line, len(src)) - 1, -1, -1):
+        m = re.match(r"\s*(?:pub(?:\([a-z]+\))?\s+)?(?:unsafe\s+)?fn\s+(\w+)", src[i])
+        if m:
+            return m.group(1)
+    return "?"
+
+
 def weak_constants(table):
     """table: {'file:line role kind': [ord, fail_ord]} -> (constants for WeakFast, constants for WeakHelp) or a reason why not"""
     rows = []
@@ -556,11 +571,18 @@ def weak_constants(table):
     if not swaps or len(slot) != 1 or not pay:
         return None, "storage swap / slot swap / pay sites not found"
     fences = [r for r in rows if r[0] == "hybrid.rs" and r[3] == "fence"]
-    pay_ok = _meet([r[4] for r in pay])
-    pay_fail = _meet([r[5] for r in pay])
+    # the writer's walk over the slots (pay_all) has its own compare-exchange since fix F8; the sites are told apart
+    # by the function of debt/mod.rs that encloses the logged line (`pay` = the holder of a debt gives it back itself)
+    own = [r for r in pay if _enclosing_fn("src/debt/mod.rs", r[1]) == "pay"]
+    walk = [r for r in pay if r not in own] or own
+    own = own or walk
+    pay_ok = _meet([r[4] for r in own])
+    pay_fail = _meet([r[5] for r in own])
+    payw_ok = _meet([r[4] for r in walk])
+    payw_fail = _meet([r[5] for r in walk])
     r4 = "acq" if any(r[4] in ("acq", "ar", "sc") for r in fences) else pay_fail
     fast = {"OrdFirst": _meet([stl[0][4]]), "OrdConfirm": _meet([stl[1][4]]), "OrdSlotSwap": _meet([slot[0][4]]),
-            "OrdStSwap": _meet([r[4] for r in swaps]), "OrdPayOk": pay_ok, "OrdPayFail": pay_fail, "OrdPayFailR4": r4}
+            "OrdStSwap": _meet([r[4] for r in swaps]), "OrdPayOk": pay_ok, "OrdPayFail": pay_fail, "OrdPayOkW": payw_ok, "OrdPayFailW": payw_fail, "OrdPayFailR4": r4}
     ctrl = sel("helping.rs", "ctrl", "swap") + sel("helping.rs", "ctrl", "cas")
     hs = sel("helping.rs", "hslot", "swap")
     env = sel("helping.rs", "env", "load") + sel("helping.rs", "env", "store") + sel("helping.rs", "space", "store")
@@ -569,7 +591,7 @@ def weak_constants(table):
         return (fast, None), "helping sites not all observed (%d control accesses, %d slot swaps, %d envelope accesses, %d helper loads)" % (len(ctrl), len(hs), len(env), len(hl))
     cords = [r[4] for r in ctrl] + [r[5] for r in ctrl if r[3] == "cas"]
     helpc = {"OrdCand": _meet([stl[2][4]]), "OrdCtrl": _meet(cords), "OrdHslot": _meet([hs[0][4]]), "OrdEnv": _meet([r[4] for r in env]),
-             "OrdStSwap": fast["OrdStSwap"], "OrdPayOk": pay_ok, "OrdPayFail": pay_fail, "OrdHelpLoad": _meet([r[4] for r in hl])}
+             "OrdStSwap": fast["OrdStSwap"], "OrdPayOk": pay_ok, "OrdPayFail": pay_fail, "OrdPayOkW": payw_ok, "OrdPayFailW": payw_fail, "OrdHelpLoad": _meet([r[4] for r in hl])}
     return (fast, helpc), ""
 
 
@@ -589,7 +611,7 @@ def weak_stage(tier, seed, key, P):
         for spec, cs, nsw in (("WeakFast.tla", consts[0], 3), ("WeakHelp.tla", consts[1], 2)):
             if cs is None:
                 continue
-            cfg = "SPECIFICATION Spec\nCONSTANTS NSwaps = %d\n" % nsw + "".join(' %s = "%s"\n' % kv for kv in cs.items()) + "INVARIANT Safe\nCHECK_DEADLOCK FALSE\n"
+            cfg = "SPECIFICATION Spec\nCONSTANTS StrictSC = TRUE\n NSwaps = %d\n" % nsw + "".join(' %s = "%s"\n' % kv for kv in cs.items()) + "INVARIANT Safe\nCHECK_DEADLOCK FALSE\n"
             name = os.path.join(P.SPEC, "_weak_%d.cfg" % os.getpid())
             open(name, "w").write(cfg)
             try:
